@@ -22,6 +22,8 @@ DIMSETS = {
     "u2i": [("u", "Unitno", [1, 2], None)],  # untyped numeric items
     "T3d_r2": [("t", "Time", [2010, 1990, 2000], int), ("r", "Region", ["r2", "r1"], str)],  # items not in ascending order
     "c3u": [("c", "Cohort", [2010.0, 1990.5, 2000.0], None)],
+    "or2_r3": [("o", "Origin region", ["EUR", "USA"], str), ("r", "Region", ["CHN", "IND", "BRA"], str)],  # a name inside another name
+    "a3i0_e2": [("a", "Age", [0, 1, 2], int), ("e", "Element", ["", "Fe"], str)],  # labels that are falsy in Python
 }
 
 
